@@ -31,6 +31,7 @@ def vpow(x, k):
 
 @register
 class PolynomialPowerCombinations(Contract):
+    functional = True
     target = TR + ":polynomial_power_combinations"
     cover_raise = True
 
@@ -73,6 +74,7 @@ def _trend(B, degree, fitted=True):
 
 @register
 class TrendJacobian(Contract):
+    functional = True
     target = TR + ":Trend.jacobian"
     stubs = {"n_1d_arrays": BU + ":n_1d_arrays", "polynomial_power_combinations": TR + ":polynomial_power_combinations"}
     frame_attrs = set()
@@ -126,6 +128,7 @@ class TrendJacobian(Contract):
 
 @register
 class TrendPredict(Contract):
+    functional = True
     target = TR + ":Trend.predict"
     stubs = {"n_1d_arrays": BU + ":n_1d_arrays", "polynomial_power_combinations": TR + ":polynomial_power_combinations"}
     frame_attrs = set()
